@@ -416,10 +416,20 @@ fn run(ctx: &mut Ctx) {
             continue;
         }
         let i = body[0].clone();
+        // Breadcrumbs stand for instructions that ARE being expanded, so only CALIBRATED instructions are put
+        // there.  What `expand` answers when the caller names an instruction without any calibration as "being
+        // expanded" is not constrained by the property (no calibration expands into itself there): the current
+        // code checks the breadcrumbs before the lookup (error), checking after the lookup (Ok(None)) is as good.
+        let prog = Program::from_instructions(instrs.clone());
+        let calibrated = |x: &Instruction| match x {
+            Instruction::Gate(g) => prog.calibrations.get_match_for_gate(g).is_some(),
+            Instruction::Measurement(m) => prog.calibrations.get_match_for_measurement(m).is_some(),
+            _ => false,
+        };
         let prev: Vec<Instruction> = match rng.below(3) {
             0 => vec![],
-            1 => body[1..].to_vec(),
-            _ => body.clone(),
+            1 => body[1..].iter().filter(|x| calibrated(x)).cloned().collect(),
+            _ => body.iter().filter(|x| calibrated(x)).cloned().collect(),
         };
         let input = tagged("expand", vec![instructions_to_sexp(&instrs), instruction_to_sexp(&i), instructions_to_sexp(&prev)]);
         ctx.case(input, || run_expand(&instrs, &i, &prev));
